@@ -376,5 +376,20 @@ type Pair[X any, Y any] struct {
 	L X
 	R Y
 }
+
+// named types over every kind of underlying type
+type Fn func(T) (U, error)
+
+type Sl []T
+
+type Mp map[string]*T
+
+type Ch chan T
+
+const Len = 3
+
+type Arr [Len]T
+
+type Ptr *T
 `, name)
 }
